@@ -70,7 +70,12 @@ def plan(rnd, max_len):
         if max_len < 30:
             size = min(size, 60)
         size = min(size, 6000)
-        specs.append(dict(cf=cf, data=kind, size=size if kind != 'none' else 0,
+        near = None
+        if kind != 'none' and max_len >= 200 and rnd.random() < 0.3:
+            # command set and data set together just below / at / just above one PDU: the data
+            # size is chosen when the message is built (it depends on the command set's length)
+            near = rnd.randint(-9, 3)
+        specs.append(dict(cf=cf, data=kind, size=size if kind != 'none' else 0, near=near,
                           pcid=rnd.choice([1, 3, 127, 255, rnd.randrange(1, 256, 2)]),
                           full=rnd.random() < 0.5, resend=rnd.choice([0, 0, 1, 2]),
                           pause=rnd.choice([0, 0, 0.0, 0.02, 0.3])))
@@ -122,7 +127,12 @@ def run(seed, local_max, peer_max, specs=None, timeout=3600, delivery='random', 
                     msg = cls()
                     fill(msg, rnd, sp['full'])
                     if sp['data'] != 'none':
-                        payload = bytes(rnd.randrange(256) for _ in range(sp['size']))
+                        size = sp['size']
+                        if sp.get('near') is not None and neg:
+                            from pynetdicom2 import dsutils
+                            cl = len(dsutils.encode(msg.command_set, True, True))
+                            size = max(1, neg - 6 - cl + sp['near'])
+                        payload = bytes(rnd.randrange(256) for _ in range(size))
                         if sp['data'] == 'file':
                             path = '/src/%s_f%d' % (tag, i)
                             world.fs.put(path, b'HDR!' + payload)
